@@ -30,7 +30,7 @@ const (
 
 type jop struct {
 	K    string  `json:"k"` // setd create lookup range delete reload write
-	T    int64   `json:"t,omitempty"`
+	T    int64   `json:"t"`
 	Lo   int64   `json:"lo,omitempty"`
 	Hi   int64   `json:"hi,omitempty"`
 	ID   uint64  `json:"id,omitempty"`
